@@ -156,6 +156,14 @@ def probe_skeletons():
     sm = m2.converter("sm"); sm.equation = sd.smooth(m2, inp, 2.0, 10.0)
     helpers = {n: body_words(e.function_string) for n, e in list(m2.stocks.items()) + list(m2.biflows.items()) + list(m2.flows.items()) + list(m2.converters.items())}
     kinds = {n: type(e).__name__ for d in (m2.stocks, m2.biflows, m2.flows, m2.converters) for n, e in d.items()}
+    # trend helper elements (names get the prefix T_ in the generated file)
+    m3 = scratch()
+    inp3 = m3.converter("inp"); inp3.equation = 3.0
+    tr = m3.converter("tr"); tr.equation = sd.trend(m3, inp3, 2.0, 10.0)
+    for d in (m3.stocks, m3.biflows, m3.flows, m3.converters):
+        for n, e in d.items():
+            helpers["T_" + n] = body_words(e.function_string)
+            kinds["T_" + n] = type(e).__name__
     return out, helpers, kinds
 
 
@@ -188,10 +196,27 @@ def skel_obligations(skel, helpers, kinds):
         "constant": 'skelIs sk_constant (.num "2.5")',
     }
     names = sorted(helpers)
-    stock = next((n for n in names if kinds.get(n) == "Stock"), None)
+    stock = next((n for n in names if kinds.get(n) == "Stock" and not n.startswith("T_")), None)
     rate = next((n for n in names if n.endswith("change_in_smooth")), None)
-    inpf = next((n for n in names if n.endswith("input_function")), None)
-    avg = next((n for n in names if n.endswith("averaging_time")), None)
+    inpf = next((n for n in names if n.endswith("input_function") and not n.startswith("T_")), None)
+    avg = next((n for n in names if n.endswith("averaging_time") and not n.startswith("T_")), None)
+    # trend: exponential-average stock, its bidirectional rate and the reported trend converter
+    q = lambda s_: '"' + s_ + '"'
+    r = lambda s_: q(s_[2:])                      # real element name (without the T_ prefix)
+    tstock = next((n for n in names if n.startswith("T_") and kinds.get(n) == "Stock"), None)
+    trate = next((n for n in names if n.startswith("T_") and n.endswith("change_in_average")), None)
+    tinp = next((n for n in names if n.startswith("T_") and n.endswith("input_function")), None)
+    tavg = next((n for n in names if n.startswith("T_") and n.endswith("averaging_time")), None)
+    ttr = next((n for n in names if n.startswith("T_") and n.endswith("_trend")), None)
+    if tstock and trate and tinp and tavg and ttr:
+        ob["trend_stock"] = f'skelIs hp_{names.index(tstock)} (stockSkel {r(tstock)} (.num "10.0") (memoCall {r(trate)} tMinusDt))'
+        ob["trend_rate"] = (f'skelIs hp_{names.index(trate)} (.bin .div (.bin .sub (memoCall {r(tinp)} (.name "t")) '
+                            f'(memoCall {r(tstock)} (.name "t"))) (memoCall {r(tavg)} (.name "t")))')
+        ob["trend_value"] = (f'skelIs hp_{names.index(ttr)} (.bin .div (.bin .sub (memoCall {r(tinp)} (.name "t")) (memoCall {r(tstock)} (.name "t"))) '
+                             f'(.bin .mul (memoCall {r(tstock)} (.name "t")) (memoCall {r(tavg)} (.name "t"))))')
+        ob["trend_rate_is_biflow"] = "true" if kinds.get(trate) == "Biflow" else "false"
+    else:
+        ob["trend_helpers_found"] = "false"
     if stock and rate and inpf and avg:
         q = lambda s: '"' + s + '"'
         ob["smooth_stock"] = f'skelIs hp_{names.index(stock)} (stockSkel {q(stock)} (.num "10.0") (memoCall {q(rate)} tMinusDt))'
